@@ -638,7 +638,8 @@ FieldInit:
         ;
 
 ArrayDecl:
-        { types = 0; } ArrayDecl2;
+        /* a dimension may itself contain declarators (a struct type with array fields): keep the count of the outer one */
+        { $<number>$ = types; types = 0; } ArrayDecl2 { types = $<number>1; };
 
 ArrayDecl2:
         /* empty */
